@@ -281,10 +281,14 @@ func parseIndexContent(src []byte, header indexStart) ([][]byte, int, error) {
 		return nil, 0, nil
 	}
 	oSize := int(header.offSize)
-	offsetArraySize := int(header.count+1) * oSize
-	if L := len(src); L < offsetArraySize {
-		return nil, 0, fmt.Errorf("reading INDEX offsets: EOF: expected length: %d, got %d", offsetArraySize, L)
+	if oSize < 1 || 4 < oSize {
+		return nil, 0, fmt.Errorf("invalid offset size %d", oSize)
 	}
+	// count is an arbitrary 32 bits integer in CFF2: avoid overflows
+	if L, E := uint64(len(src)), (uint64(header.count)+1)*uint64(oSize); L < E {
+		return nil, 0, fmt.Errorf("reading INDEX offsets: EOF: expected length: %d, got %d", E, L)
+	}
+	offsetArraySize := (int(header.count) + 1) * oSize
 	out := make([][]byte, header.count)
 	data := src[offsetArraySize:]
 
